@@ -3,7 +3,7 @@
 so that the thorough self-test proves the rule that exposed the defect still fires"""
 import json, os, re, subprocess
 V = os.path.dirname(os.path.dirname(os.path.abspath(__file__)))
-RULE = {'D99': 'R8', 'D98': 'R15', 'D97': 'R4', 'D96': 'R3', 'D95': 'R11', 'D94': 'R13', 'D93': 'R10', 'D92': 'R9', 'D91': 'R1', 'D90': 'R9', 'D89': 'R11', 'D88': 'R2', 'D87': 'R3', 'D86': 'R11', 'D85': 'R10', 'D84': 'R13/R14', 'D83': 'R13', 'D82': 'R10', 'D81': 'R10', 'D80': 'R7', 'D79': 'R1', 'D78': 'R6', 'D77': 'R3', 'D76': 'R9', 'D75': 'R8', 'D74': 'R12', 'D73': 'R11', 'D72': 'R8', 'D71': 'R3', 'D70': 'R1', 'D69': 'R9', 'D68': 'R8', 'D67': 'R7', 'D66': 'R7', 'D65': 'R9', 'D64': 'R2', 'D63': 'R10', 'D62': 'R9', 'D61': 'R8', 'D60': 'R7', 'D59': 'R1', 'D58': 'R2', 'D57': 'R10', 'D56': 'R5', 'D55': 'R3', 'D53': 'R7', 'D52': 'R6', 'D51': 'R7', 'D50': 'R3', 'D49': 'R7', 'D48': 'R6', 'D47': 'R8', 'D46': 'R7', 'D45': 'R7', 'D44': 'R7', 'D43': 'R6', 'D42': 'R6', 'D41': 'R6', 'D40': 'R8', 'D39': 'R7', 'D38': 'R6', 'D37': 'R11', 'D36': 'R12', 'D35': 'R11', 'D34': 'R10', 'D33': 'R9', 'D32': 'R11', 'D31': 'R10', 'D30': 'R9', 'D29': 'R8', 'D26b': 'R8', 'D28': 'R7', 'D27': 'R9', 'D26': 'R8', 'D25': 'R8', 'D24': 'R4', 'D23': 'R6', 'D22': 'R3', 'D21': 'R6', 'D19': 'R4', 'D20': 'R5', 'D1': 'R1', 'D2': 'R2', 'D3': 'R1', 'D4': 'R2', 'D5': 'R4', 'D6': 'R2', 'D7': 'R3', 'D8a': 'R1', 'D8b': 'R4', 'D9': 'R2',
+RULE = {'D101': 'R9', 'D100': 'R10', 'D99': 'R8', 'D98': 'R15', 'D97': 'R4', 'D96': 'R3', 'D95': 'R11', 'D94': 'R13', 'D93': 'R10', 'D92': 'R9', 'D91': 'R1', 'D90': 'R9', 'D89': 'R11', 'D88': 'R2', 'D87': 'R3', 'D86': 'R11', 'D85': 'R10', 'D84': 'R13/R14', 'D83': 'R13', 'D82': 'R10', 'D81': 'R10', 'D80': 'R7', 'D79': 'R1', 'D78': 'R6', 'D77': 'R3', 'D76': 'R9', 'D75': 'R8', 'D74': 'R12', 'D73': 'R11', 'D72': 'R8', 'D71': 'R3', 'D70': 'R1', 'D69': 'R9', 'D68': 'R8', 'D67': 'R7', 'D66': 'R7', 'D65': 'R9', 'D64': 'R2', 'D63': 'R10', 'D62': 'R9', 'D61': 'R8', 'D60': 'R7', 'D59': 'R1', 'D58': 'R2', 'D57': 'R10', 'D56': 'R5', 'D55': 'R3', 'D53': 'R7', 'D52': 'R6', 'D51': 'R7', 'D50': 'R3', 'D49': 'R7', 'D48': 'R6', 'D47': 'R8', 'D46': 'R7', 'D45': 'R7', 'D44': 'R7', 'D43': 'R6', 'D42': 'R6', 'D41': 'R6', 'D40': 'R8', 'D39': 'R7', 'D38': 'R6', 'D37': 'R11', 'D36': 'R12', 'D35': 'R11', 'D34': 'R10', 'D33': 'R9', 'D32': 'R11', 'D31': 'R10', 'D30': 'R9', 'D29': 'R8', 'D26b': 'R8', 'D28': 'R7', 'D27': 'R9', 'D26': 'R8', 'D25': 'R8', 'D24': 'R4', 'D23': 'R6', 'D22': 'R3', 'D21': 'R6', 'D19': 'R4', 'D20': 'R5', 'D1': 'R1', 'D2': 'R2', 'D3': 'R1', 'D4': 'R2', 'D5': 'R4', 'D6': 'R2', 'D7': 'R3', 'D8a': 'R1', 'D8b': 'R4', 'D9': 'R2',
         'D10': 'R3', 'D11a': 'R1', 'D11b': 'R2', 'D11c': 'R3', 'D12': 'R6/R7', 'D13': 'R4', 'D14': 'R2', 'D15': 'R2', 'D16': 'R3',
         'D17': 'R1', 'D18': 'R6'}
 ALSO_REVERT = {'D26': ['2cc7e70']}
